@@ -1,5 +1,6 @@
 import PybropsModel.J
 import PybropsModel.Model.Haplo
+import PybropsModel.Model.HaploSpec
 open Lean
 
 /-!
@@ -20,12 +21,6 @@ def errJ (e : String) : Json := J.obj [("error", J.ofStr e)]
 
 def ofOptNat : Option Nat → Json := J.ofOpt J.ofNat
 def ofOptRat : Option Q → Json := J.ofOpt J.ofRat
-
-def absQ (a : Q) : Q := if a < 0 then -a else a
-def maxQ (a b : Q) : Q := if a < b then b else a
-/-- tolerant equality for values that went through binary64: 1e-9 relative, floor 1 -/
-def approx (a b : Q) : Bool :=
-  absQ (a - b) ≤ (1 / 1000000000 : Q) * maxQ 1 (maxQ (absQ a) (absQ b))
 
 /-- smallest gap between the minimum of `diff` and a competitor that is not bit-identical to it,
     over all iterations of the greedy loop (0 ⇒ an exact tie between different chromosomes: the
@@ -50,6 +45,19 @@ def greedyMargin (gl ideal : List Q) (lens : Option (List Nat)) : Nat → List N
     let m' := gaps.foldl (fun a b => if b < a then b else a) m
     greedyMargin gl ideal lens k (incrAt ix nb) m'
 
+/-! ### binary64 execution of the layout part of the model
+The same definitions (`nhaploblkChrom`, `haplobin`, `blocksOf`, and their patched variants) are run at
+`Float`: Lean's `Float` is IEEE binary64, the operations and their order are those of the numpy code
+(`genlen.sum()` left to right for < 8 chromosomes, `(n / S) * g`, `nb - ideal`, `j * step + start`), so labels
+and block counts are reproduced bit for bit, ties and boundary markers included. -/
+instance : NatCast Float := ⟨Float.ofNat⟩
+
+/-- exact for the values the harness sends (binary64 numbers written as fractions) -/
+def toF (q : Q) : Float := Float.ofInt q.num / Float.ofNat q.den
+
+def fchroms (genpos : List Q) (stix spix : List Nat) : List (List Float) :=
+  chromSlices (genpos.map toF) stix spix
+
 def readLayout (j : Json) : J.R (List Q × List Nat × List Nat) := do
   let genpos ← J.field j "genpos" (J.list J.rat)
   let stix ← J.field j "stix" (J.list J.nat)
@@ -68,7 +76,11 @@ def opNblk : J.Op := fun j => do
     let lens := if patched then some (chroms.map List.length) else none
     let margin : Q := if Np.sum gl = 0 then 1 else
       greedyMargin gl (ideal n gl) lens (n - gl.length) (List.replicate gl.length 1) 1000000
-    pure <| J.obj [("nblk", J.ofList J.ofNat nb), ("margin", J.ofRat margin)]
+    let nbf := match (if patched then nhaploblkChromFixed n (fchroms genpos stix spix)
+                      else nhaploblkChrom n (fchroms genpos stix spix)) with
+      | .ok v => J.ofList J.ofNat v
+      | .error e => errJ e
+    pure <| J.obj [("nblk", J.ofList J.ofNat nb), ("margin", J.ofRat margin), ("nblk_f", nbf)]
 
 def opHaplobin : J.Op := fun j => do
   let nblk ← J.field j "nblk" (J.list J.nat)
@@ -78,7 +90,9 @@ def opHaplobin : J.Op := fun j => do
   let chroms := chromSlices genpos stix spix
   let exact := if patched then haplobinFixed nblk chroms else haplobin nblk chroms
   let given := hbs.map (fun h => if patched then haplobinFixedHB h chroms 0 else haplobinHB h chroms 0)
-  pure <| J.obj [("hbin", J.ofList ofOptNat exact),
+  let fc := fchroms genpos stix spix
+  let flt := if patched then haplobinFixed nblk fc else haplobin nblk fc
+  pure <| J.obj [("hbin", J.ofList ofOptNat exact), ("hbin_f", J.ofList ofOptNat flt),
                  ("hbin_hb", J.ofOpt (J.ofList ofOptNat) given),
                  ("hbs", J.ofMat J.ofRat (hbounds nblk chroms))]
 
@@ -109,8 +123,12 @@ def opModel : J.Op := fun j => do
   let xpop ← J.fieldD j "x_pop" (J.list J.nat) []
   let nbest ← J.fieldD j "nbest" J.nat 1
   let patched ← J.fieldD j "patched" J.bool false
+  -- layout (apportionment, labels, blocks) in binary64, values in exact rationals
+  let exactLayout ← J.fieldD j "exact_layout" J.bool false
   let chroms := chromSlices genpos stix spix
-  match (if patched then blocksOfFixed n chroms else blocksOf n chroms guard) with
+  let fc := fchroms genpos stix spix
+  match (if exactLayout then (if patched then blocksOfFixed n chroms else blocksOf n chroms guard)
+         else (if patched then blocksOfFixed n fc else blocksOf n fc guard)) with
   | .error e => pure (errJ e)
   | .ok (nblk, hbin, bnds) =>
     let ucols := ucolsOf u
@@ -141,100 +159,6 @@ structure Clause where
   name : String
   ok : Bool
 
-def allIdx (n : Nat) (p : Nat → Bool) : Bool := (List.range n).all p
-
-/-- apportionment: one count per chromosome, each ≥ 1, summing to the request -/
-def specApportion (nhaploblk nchr : Nat) (nblk : List Nat) : Bool :=
-  nblk.length == nchr && nblk.all (1 ≤ ·) && Np.sum nblk == nhaploblk
-
-/-- the `(hstix, hspix, hlen)` triple tiles `[0, p)` by non-empty consecutive segments -/
-def specPartition (p : Nat) (hstix hspix hlen : List Nat) : Bool :=
-  let k := hstix.length
-  1 ≤ k && hspix.length == k && hlen.length == k &&
-  hstix.getD 0 1 == 0 && hspix.getD (k - 1) 0 == p &&
-  allIdx k (fun j => hstix.getD j 0 < hspix.getD j 0 && hlen.getD j 0 + hstix.getD j 0 == hspix.getD j 0) &&
-  allIdx (k - 1) (fun j => hspix.getD j 0 == hstix.getD (j + 1) 1)
-
-/-- the blocks are the maximal runs of the labels: constant inside, changing at every boundary -/
-def specLabels (p : Nat) (hbin : List Int) (hstix hspix : List Nat) : Bool :=
-  hbin.length == p &&
-  (List.zip hstix hspix).all (fun b => (List.range (b.2 - b.1)).all (fun o => hbin.getD (b.1 + o) 0 == hbin.getD b.1 1)) &&
-  allIdx (hstix.length - 1) (fun j => hbin.getD (hstix.getD j 0) 0 != hbin.getD (hstix.getD (j + 1) 0) 0)
-
-/-- every block lies inside one chromosome and every chromosome holds at least one block -/
-def specWithinChrom (stix spix hstix hspix : List Nat) : Bool :=
-  let chr := List.zip stix spix
-  let blk := List.zip hstix hspix
-  blk.all (fun b => chr.any (fun c => c.1 ≤ b.1 && b.2 ≤ c.2)) &&
-  chr.all (fun c => blk.any (fun b => c.1 ≤ b.1 && b.2 ≤ c.2))
-
-/-- block values of every chromosome copy sum to the copy's additive value, for every trait;
-    `hmat` in numpy layout `[m][n][b][t]` -/
-def specConserve (geno : List (List (List Q))) (ucols : List (List Q))
-    (hmat : List (List (List (List Q)))) (nhaploblk : Nat) : Bool :=
-  hmat.length == geno.length &&
-  (List.zip geno hmat).all (fun gm => gm.2.length == gm.1.length &&
-    (List.zip gm.1 gm.2).all (fun gh => gh.2.length == nhaploblk &&
-      ucols.zipIdx.all (fun ut =>
-        approx (Np.sum (gh.2.map (fun row => row.getD ut.2 0))) (Np.dot gh.1 ut.1))))
-
-/-- block values recomputed from the inputs on the implementation's own blocks: `V[m][n][b]` -/
-def trueValues (geno : List (List (List Q))) (u : List Q) (bnds : List (Nat × Nat)) : List (List (List Q)) :=
-  blockTable geno u bnds
-
-/-- optimal value of a parent tuple by definition: ploidy · Σ_blocks max_(phase, parent) -/
-def bestValue (V : List (List (List Q))) (nb : Nat) (par : List Nat) : Q := ohv V nb par
-
-def specOhv (geno : List (List (List Q))) (ucols : List (List Q)) (bnds : List (Nat × Nat))
-    (xm : List (List Nat)) (ohvmat : List (List Q)) : Bool :=
-  ohvmat.length == xm.length &&
-  ucols.zipIdx.all (fun ut =>
-    let V := trueValues geno ut.1 bnds
-    (List.zip xm ohvmat).all (fun xr => approx (xr.2.getD ut.2 0) (bestValue V bnds.length xr.1)))
-
-/-- a doubled haploid that takes block `b` from `(phase, parent)` = `choice[b mod len]` of the cross
-    is not better than the reported optimal haploid value -/
-def specDh (geno : List (List (List Q))) (ucols : List (List Q)) (bnds : List (Nat × Nat))
-    (xm : List (List Nat)) (ohvmat : List (List Q)) (choices : List (List (Nat × Nat))) : Bool :=
-  let ploidy : Q := (geno.length : Nat)
-  choices.all (fun ch =>
-    (List.zip xm ohvmat).all (fun xr =>
-      let src : List (List Q) := (List.range bnds.length).map (fun b =>
-        let c := ch.getD (b % (max ch.length 1)) (0, 0)
-        let par := xr.1.getD (c.2 % (max xr.1.length 1)) 0
-        ((geno.getD (c.1 % (max geno.length 1)) []).getD par []))
-      let gam := mosaic bnds src
-      ucols.zipIdx.all (fun ut =>
-        let v := ploidy * Np.dot gam ut.1
-        v ≤ xr.2.getD ut.2 0 || approx v (xr.2.getD ut.2 0))))
-
-def specOpv (geno : List (List (List Q))) (ucols : List (List Q)) (bnds : List (Nat × Nat))
-    (x : List Nat) (opv : List Q) : Bool :=
-  opv.length == ucols.length &&
-  ucols.zipIdx.all (fun ut =>
-    let V := trueValues geno ut.1 bnds
-    approx (-(opv.getD ut.2 0)) (bestValue V bnds.length x))
-
-/-- OHV subset latent: minus the mean of the selected crosses' optimal haploid values -/
-def specOhvLatent (ohvmat : List (List Q)) (x : List Nat) (lat : List Q) : Bool :=
-  let k : Q := (x.length : Nat)
-  lat.zipIdx.all (fun lt =>
-    approx lt.1 (-(Np.sum (x.map (fun i => (ohvmat.getD i []).getD lt.2 0)) / k)))
-
-/-- genotype-builder latent by definition: per block the `nbest` largest best-phase values among the
-    selected individuals, summed over blocks, times `-(ploidy / nbest)` -/
-def specGb (geno : List (List (List Q))) (ucols : List (List Q)) (bnds : List (Nat × Nat))
-    (x : List Nat) (nbest : Nat) (lat : List Q) : Bool :=
-  lat.length == ucols.length &&
-  ucols.zipIdx.all (fun ut =>
-    let V := trueValues geno ut.1 bnds
-    let ploidy : Q := (geno.length : Nat)
-    let perBlock := (List.range bnds.length).map (fun b =>
-      let best := x.map (fun p => (bestBlock V [p] b).getD 0)
-      let desc := Np.stableSort (fun a c => decide (c ≤ a)) best
-      Np.sum (desc.take nbest))
-    approx (lat.getD ut.2 0) (-(ploidy / (nbest : Q)) * Np.sum perBlock))
-
 def pairs (j : Json) : J.R (Nat × Nat) := do
   let l ← J.list J.nat j
   match l with
@@ -251,10 +175,10 @@ def opSpec : J.Op := fun j => do
   let hspix ← J.field j "hspix" (J.list J.nat)
   let hlen ← J.field j "hlen" (J.list J.nat)
   let mut cl : List Clause := [
-    ⟨"apportion", specApportion n stix.length nblk⟩,
-    ⟨"partition", specPartition p hstix hspix hlen⟩,
-    ⟨"labels", specLabels p hbin hstix hspix⟩,
-    ⟨"within_chrom", specWithinChrom stix spix hstix hspix⟩,
+    ⟨"apportion", Spec.apportion n stix.length nblk⟩,
+    ⟨"partition", Spec.partition p hstix hspix hlen⟩,
+    ⟨"labels", Spec.labels p hbin hstix⟩,
+    ⟨"within_chrom", Spec.withinChrom stix hstix⟩,
     ⟨"total", hstix.length == n⟩]
   let geno? ← J.fieldOpt j "geno" (J.list (J.mat J.rat))
   if let some geno := geno? then
@@ -262,25 +186,25 @@ def opSpec : J.Op := fun j => do
     let ucols := ucolsOf u
     let bnds := List.zip hstix hspix
     let hmats ← J.fieldD j "hmats" (J.list (J.list (J.list (J.mat J.rat)))) []
-    cl := cl ++ [⟨"conserve", hmats.all (fun h => specConserve geno ucols h n)⟩]
+    cl := cl ++ [⟨"conserve", hmats.all (fun h => Spec.conserve geno ucols h n)⟩]
     let xm? ← J.fieldOpt j "xmap" (J.mat J.nat)
     let ohvmat? ← J.fieldOpt j "ohvmat" (J.mat J.rat)
     if let (some xm, some ohvmat) := (xm?, ohvmat?) then
       let choices ← J.fieldD j "dh" (J.list (J.list pairs)) []
-      cl := cl ++ [⟨"ohv_def", specOhv geno ucols bnds xm ohvmat⟩,
-                   ⟨"ohv_ge_dh", specDh geno ucols bnds xm ohvmat choices⟩]
+      cl := cl ++ [⟨"ohv_def", Spec.ohvDef geno ucols bnds xm ohvmat⟩,
+                   ⟨"ohv_ge_dh", Spec.ohvGeDh geno ucols bnds xm ohvmat choices⟩]
     let x? ← J.fieldOpt j "x_pop" (J.list J.nat)
     let opv? ← J.fieldOpt j "opv_latent" (J.list J.rat)
     if let (some x, some opv) := (x?, opv?) then
-      cl := cl ++ [⟨"opv_def", specOpv geno ucols bnds x opv⟩]
+      cl := cl ++ [⟨"opv_def", Spec.opvDef geno ucols bnds x opv⟩]
     let xo? ← J.fieldOpt j "x_ohv" (J.list J.nat)
     let ol? ← J.fieldOpt j "ohv_latent" (J.list J.rat)
     if let (some xo, some ol, some ohvmat) := (xo?, ol?, ohvmat?) then
-      cl := cl ++ [⟨"ohv_latent_def", specOhvLatent ohvmat xo ol⟩]
+      cl := cl ++ [⟨"ohv_latent_def", Spec.ohvLatentDef ohvmat xo ol⟩]
     let gb? ← J.fieldOpt j "gb_latent" (J.list J.rat)
     let nbest? ← J.fieldOpt j "nbest" J.nat
     if let (some x, some gb, some nbest) := (x?, gb?, nbest?) then
-      cl := cl ++ [⟨"gb_def", specGb geno ucols bnds x nbest gb⟩]
+      cl := cl ++ [⟨"gb_def", Spec.gbDef geno ucols bnds x nbest gb⟩]
   let failed := (cl.filter (fun c => !c.ok)).map (·.name)
   pure <| J.obj [("ok", J.ofBool failed.isEmpty), ("failed", J.ofList J.ofStr failed),
                  ("checked", J.ofList J.ofStr (cl.map (·.name)))]
